@@ -15,9 +15,5 @@ INIT Init
 NEXT Next
 CHECK_DEADLOCK FALSE
 INVARIANTS
-  C11_WriteOnce
+  C11_AllSteps
   C11_ServiceCanMint
-  C11_Roles
-  C11_Mintable
-  C11_TakenIdsRefuse
-  C11_Frame
